@@ -96,7 +96,7 @@ fn sign_block(pool: &Pool, real: &MetadataWrapper, other: &MetadataWrapper, sigs
     for s in sigs.as_array().unwrap() {
         let mb = s["made_by"].as_u64().unwrap() as usize;
         let signer = if mb < pool.ed.len() - 1 { mb } else { pool.ed.len() - 1 };
-        let label = keyid_of(pool, &s["label"]);
+        let label = if s["label_raw"].is_array() { String::from_utf8(s["label_raw"].as_array().unwrap().iter().map(|b| b.as_u64().unwrap() as u8).collect()).expect("utf8 key id") } else { keyid_of(pool, &s["label"]) };
         out.push(crate::c04::make_sig(pool, real, other, signer, &label, s["intact"].as_bool().unwrap(), s["over"].as_bool().unwrap()));
     }
     out
